@@ -108,7 +108,7 @@ def _worker(prop_name, tier, seed, shard, attempt, n, out_path, cur_path, done_p
         from hypothesis import given, settings, strategies as st, HealthCheck, Phase
         known = load_known(prop.ID)
         out = open(out_path, "a", buffering=1)
-        state = {"fail": {}, "last_fail": None, "harness": None, "samples": []}
+        state = {"fail": {}, "last_fail": None, "harness": None, "samples": [], "gen_count": 0}
 
         import random as _random
 
@@ -121,6 +121,9 @@ def _worker(prop_name, tier, seed, shard, attempt, n, out_path, cur_path, done_p
             # the individual choices of the generator structurally.
             if shrink_sig is None and getattr(prop, "RNG", "seed") == "seed":
                 rnd = _random.Random(draw(st.integers(min_value=0, max_value=2 ** 64 - 1)))
+                # a running index (unique across shards) for generators that stratify expensive cases
+                rnd.verif_index = shard + state["gen_count"] * 64
+                state["gen_count"] += 1
             else:
                 rnd = draw(st.randoms(use_true_random=False))
             return prop.generate(rnd, tier)
